@@ -236,3 +236,47 @@ Proof.
     destruct (sim_visits cfg_verifnet 7 0 k_P k_now bound (sync0 k_B)) as (j & Hj). rewrite Hj in Hb.
     destruct (stuck_long_light_fork j) as (_ & Hne & _). apply Hne. exact Hb.
 Qed.
+
+(* ------------------------------------------------------------------ livelock 2: a stale or false target *)
+(* our chain: genesis + 5 blocks 15 s apart (tip 3005, cumulative difficulty 15); the honest peer: genesis + 5 blocks
+   with equal timestamps (tip 4005, height 5, cumulative difficulty 17: heavier, not higher, fork at genesis) *)
+Definition k_ours2 : list block := Eval vm_compute in k_build 5 k_n0 k_genesis 3001 0 15000 [].
+Definition k_theirs2 : list block := Eval vm_compute in k_build 5 k_n0 k_genesis 4001 0 0 [].
+Definition k_B2 : node := k_feed k_ours2.
+Definition k_P2 : node := k_feed k_theirs2.
+Notation k_srounds2 := (srounds cfg_verifnet 7 0 k_P2 k_now).
+
+Lemma k_chains2 :
+  (top k_B2, top_h k_B2, top_cd k_B2) = (3005, 5, 15) /\ (top k_P2, top_h k_P2, top_cd k_P2) = (4005, 5, 17).
+Proof. split; vm_compute; reflexivity. Qed.
+
+(* control: with nothing but the honest peer's announcement the node adopts the peer's chain within 5 rounds *)
+Lemma k_control2 : top (sy_node (k_srounds2 5 (sync0 k_B2))) = 4005.
+Proof. vm_compute. reflexivity. Qed.
+
+(* the same node after a STATS packet (height 100, cumulative difficulty 1000) from a peer that delivers nothing *)
+Definition k_stale : sync := recv_stats (sync0 k_B2) 100 1000.
+
+Lemma k_period2 : k_srounds2 (22 + 22) k_stale = k_srounds2 22 k_stale.
+Proof. vm_compute. reflexivity. Qed.
+
+Lemma k_first_44 :
+  forallb (fun j => let s := k_srounds2 j k_stale in
+                    (top (sy_node s) =? 3005) && (length (blocks (sy_node s)) =? 6)%nat && (sy_height s =? 100) && (sy_diff s =? 1000))
+          (seq 0 44) = true.
+Proof. vm_compute. reflexivity. Qed.
+
+(* in every round: the tip stays our own block 3005, nothing of the peer's branch is stored (the store keeps its 6
+   blocks), the target stays the false one *)
+Theorem stuck_stale_target : forall j,
+  let s := k_srounds2 j k_stale in
+  top (sy_node s) = 3005 /\ length (blocks (sy_node s)) = 6%nat /\ sy_height s = 100 /\ sy_diff s = 1000.
+Proof.
+  apply (srounds_finite cfg_verifnet 7 0 k_P2 k_now 22 22 k_stale
+           (fun s => top (sy_node s) = 3005 /\ length (blocks (sy_node s)) = 6%nat /\ sy_height s = 100 /\ sy_diff s = 1000)
+           ltac:(lia) k_period2).
+  intros j Hj. pose proof (forall_lt_dec _ 44 k_first_44 j Hj) as H. cbn beta zeta in H.
+  apply andb_prop in H. destruct H as (H & H4). apply andb_prop in H. destruct H as (H & H3).
+  apply andb_prop in H. destruct H as (H1 & H2).
+  apply N.eqb_eq in H1, H3, H4. apply Nat.eqb_eq in H2. repeat split; assumption.
+Qed.
